@@ -123,13 +123,22 @@ func (s *Server) serve(ctx context.Context, listener net.Listener, handler Modbu
 			log.Printf("modbus server connection error: %v", err)
 		}
 	}
+	// listener is made visible to Shutdown/Addr before anyone (OnServeFunc) is told that server is serving
+	s.mu.Lock()
+	if s.isShutdown.Load() { // Shutdown was called before serving started
+		s.mu.Unlock()
+		_ = listener.Close()
+		return ErrServerClosed
+	}
+	s.listener = listener
+	s.mu.Unlock()
+
 	if s.OnServeFunc != nil {
 		// when listener is started with ":0" (random port) this will be helpful knowing where to connect
 		// and if server is listening already
 		s.OnServeFunc(listener.Addr())
 	}
 
-	s.listener = listener
 	l := onceCloseListener{Listener: listener}
 	defer l.Close()
 
@@ -292,7 +301,10 @@ func (s *Server) Shutdown(ctx context.Context) error {
 	defer s.mu.Unlock()
 	s.isShutdown.Store(true)
 
-	err := s.listener.Close()
+	var err error
+	if s.listener != nil { // is nil when Shutdown is called before serving has started
+		err = s.listener.Close()
+	}
 
 	timer := time.NewTimer(50 * time.Millisecond)
 	defer timer.Stop()
